@@ -43,6 +43,8 @@ def _subst(p, subst):
     if subst is None:
         return p
     r = _root(p)
+    if r == "ghost":
+        return p
     if r not in subst:
         return None
     if subst[r] is None:
@@ -94,6 +96,14 @@ def frame_of(eng, fi, _stack=None):
     fr = Frame()
     roots = set(fi.params)
     analyse(eng, fi.node.body, fr, roots, fi.cls, _stack + [fi.qual])
+    c = eng.registry.get(fi.qual)
+    if c is not None and c.modifies is not None:
+        # declared frame of a contracted callee (includes ghost state)
+        from .contracts import norm_path
+        for p in c.modifies:
+            fr.paths.add(norm_path(p))
+        for p in c.modifies_prefix:
+            fr.prefixes.add(norm_path(p))
     _CACHE[key] = fr
     return fr
 
@@ -344,7 +354,7 @@ def loop_writes(eng, loop, st):
             locals_mod.add(n.target.id)
     # heap effects: analyse the body as a pseudo-function whose roots are all names
     fr = Frame()
-    roots = {nm for nm in st.env if not is_heap(nm)} | set(eng.func.params) | {"self"}
+    roots = {nm for nm in st.env if not is_heap(nm)} | set(eng.func.params) | {"self", "ghost"}
     analyse(eng, body, fr, roots, eng.frame_cls[-1] if eng.frame_cls else None, [eng.func.qual + "#loop"])
     heap, prefixes = set(), set()
     for p in fr.paths:
